@@ -371,7 +371,11 @@ func checkC07(ix *index, add addFn) {
 				}
 				continue
 			}
-			if o.ret < 0 || ix.tr[o.ret].T > ix.tr[last].T {
+			slack := int64(0)
+			if sc.Cfg.EarlyReply {
+				slack = 10 // the writer is parked for 1 ns inside each Write of this mode
+			}
+			if o.ret < 0 || ix.tr[o.ret].T > ix.tr[last].T+slack {
 				if o.ret >= 0 && o.ret < last {
 					continue
 				}
@@ -390,7 +394,7 @@ func checkC07(ix *index, add addFn) {
 			continue
 		}
 		// not (yet) completely acknowledged: must still be blocked unless the link ended
-		if o.ret >= 0 && o.ret < ix.end() && o.err != "" && (connEnded < 0 || o.ret < connEnded) {
+		if o.ret >= 0 && o.ret < ix.end() && o.err != "" && !o.ctxErr && (connEnded < 0 || o.ret < connEnded) {
 			add("disturbed", fmt.Sprintf("op %d (%s id %d) failed (%s) although the connection was up and its acknowledgement had not arrived", k, op.Kind, id, o.err), nil)
 		}
 	}
@@ -563,13 +567,24 @@ func checkC11(ix *index, add addFn) {
 				called = true
 			}
 		}
+		at := e.t
 		if !called {
-			continue
+			// the transport died before Connect was called on it: Done() must be
+			// closed at the quiescence after that Connect
+			for k, op := range sc.Ops {
+				if op.Kind == "connect" && op.Cli+1 == conn && ix.ops[k].inv >= 0 {
+					called = true
+					at = ix.tr[ix.ops[k].inv].T
+				}
+			}
+			if !called {
+				continue
+			}
 		}
 		ok := false
 		for i := range ix.tr {
 			r := &ix.tr[i]
-			if r.Kind == "sample" && r.Conn == conn && r.B && r.T == e.t {
+			if r.Kind == "sample" && r.Conn == conn && r.B && r.T == at {
 				ok = true
 			}
 		}
@@ -994,6 +1009,9 @@ func checkC15(ix *index, add addFn) {
 					continue // retransmission keeps its id
 				}
 				firstTx[tok] = true
+			}
+			if sc.Cfg.Client != "base" {
+				continue // uniqueness is judged on one BaseClient's counter; here only zero / preset-kept
 			}
 			allocs[r.Conn]++
 			k := key{r.Conn, p.ID}
